@@ -170,10 +170,120 @@ theorem lexRaw_render (name raw rest : Str) (hlow : lower name = name) (hne : na
       rw [ih h.2 k hlen]
       rfl
 
+/-! ### white space after the content (the formatter's `_indent` before the end tag) -/
+
+theorem lowerChar_ws (c : Char) (h : isWs c = true) : lowerChar c = c := by
+  simp only [isWs, Bool.or_eq_true, decide_eq_true_eq] at h
+  rcases h with (((((((((e|e)|e)|e)|e)|e)|e)|e)|e)|e) <;> (subst e; decide)
+
+theorem dropWhile_ws_all (w : Str) (hw : ∀ c ∈ w, isWs c = true) : w.dropWhile isWs = [] := by
+  induction w with
+  | nil => rfl
+  | cons c cs ih =>
+    have hc := hw c (by simp)
+    simp only [List.dropWhile_cons, hc, if_true]
+    exact ih (fun x hx => hw x (by simp [hx]))
+
+theorem closesAt_nil (name : Str) (hne : name ≠ []) : closesAt name [] = none := by
+  unfold closesAt
+  rw [if_neg]
+  intro h
+  simp [lower] at h
+  exact hne h
+
+/-- white space appended to something the closing expression does not match: still no match -/
+theorem closesAt_append_ws (name r1 w : Str) (hnw : ∀ c ∈ name, isWs c = false)
+    (hw : ∀ c ∈ w, isWs c = true) (h : closesAt name r1 = none) : closesAt name (r1 ++ w) = none := by
+  by_cases hlen : name.length ≤ r1.length
+  · unfold closesAt at h ⊢
+    rw [List.take_append_of_le_length hlen, List.drop_append_of_le_length hlen]
+    by_cases hnm : lower (r1.take name.length) = name
+    · rw [if_pos hnm] at h ⊢
+      rw [List.dropWhile_append]
+      cases hd : (r1.drop name.length).dropWhile isWs with
+      | nil => simp [dropWhile_ws_all w hw]
+      | cons e r =>
+        rw [hd] at h
+        simp only [List.isEmpty_cons, Bool.false_eq_true, if_false, List.cons_append]
+        by_cases he : e = '>'
+        · subst he; simp at h
+        · split
+          · rename_i r2 heq; simp at heq; exact absurd heq.1 he
+          · rfl
+    · rw [if_neg hnm]
+  · have hlen' : r1.length < name.length := Nat.lt_of_not_le hlen
+    cases w with
+    | nil => simpa using h
+    | cons d w' =>
+      unfold closesAt
+      rw [if_neg]
+      intro heq
+      have hd : isWs d = true := hw d (by simp)
+      have hmem : d ∈ name := by
+        rw [← heq, List.take_append, lower_append]
+        have h1 : r1.take name.length = r1 := List.take_of_length_le (Nat.le_of_lt hlen')
+        obtain ⟨m, hm⟩ : ∃ m, name.length - r1.length = m + 1 := ⟨name.length - r1.length - 1, by omega⟩
+        rw [hm]
+        simp [lower, lowerChar_ws d hd]
+      rw [hnw d hmem] at hd
+      exact absurd hd (by decide)
+
+theorem matchEndTag_append_ws (name s w : Str) (hne : name ≠ []) (hnw : ∀ c ∈ name, isWs c = false)
+    (hw : ∀ c ∈ w, isWs c = true) (hs : s ≠ []) (h : matchEndTag name s = none) :
+    matchEndTag name (s ++ w) = none := by
+  match s, hs with
+  | [c], _ =>
+    by_cases hc : c = '<'
+    · subst hc
+      cases w with
+      | nil => simpa using h
+      | cons d w' =>
+        have hd : isWs d = true := hw d (by simp)
+        exact matchEndTag_not_slash name d w' (by intro e; subst e; exact absurd hd (by decide))
+    · exact matchEndTag_not_lt name c _ hc
+  | c :: d :: r, _ =>
+    by_cases hc : c = '<'
+    · subst hc
+      by_cases hd : d = '/'
+      · subst hd
+        rw [matchEndTag_eq] at h
+        simp only [List.cons_append]
+        rw [matchEndTag_eq, List.dropWhile_append]
+        cases hdw : r.dropWhile isWs with
+        | nil =>
+          simp only [List.isEmpty_nil, if_true, dropWhile_ws_all w hw]
+          exact closesAt_nil name hne
+        | cons e r' =>
+          rw [hdw] at h
+          simp only [List.isEmpty_cons, Bool.false_eq_true, if_false]
+          exact closesAt_append_ws name (e :: r') w hnw hw h
+      · exact matchEndTag_not_slash name d _ hd
+    · exact matchEndTag_not_lt name c _ hc
+
+theorem rawOK_ws (name w : Str) (hw : ∀ c ∈ w, isWs c = true) : RawOK name w := by
+  induction w with
+  | nil => trivial
+  | cons c cs ih =>
+    have hc : isWs c = true := hw c (by simp)
+    exact ⟨matchEndTag_not_lt name c cs (by intro e; subst e; exact absurd hc (by decide)),
+      ih (fun x hx => hw x (by simp [hx]))⟩
+
+/-- **content followed by white space** (what the pretty printers put before `</script>`): still free of the
+    closing expression -/
+theorem rawOK_append_ws (name raw w : Str) (hne : name ≠ []) (hnw : ∀ c ∈ name, isWs c = false)
+    (hw : ∀ c ∈ w, isWs c = true) (h : RawOK name raw) : RawOK name (raw ++ w) := by
+  induction raw with
+  | nil => simpa using rawOK_ws name w hw
+  | cons c cs ih =>
+    exact ⟨matchEndTag_append_ws name (c :: cs) w hne hnw hw (by simp) h.1, ih h.2⟩
+
 /-! ### the two raw-text names -/
 
 theorem rawName_cases (n : Str) (h : isRawText n = true) : n = "script".toList ∨ n = "style".toList := by
   simpa [isRawText] using h
+
+theorem rawName_noWs (n : Str) (h : isRawText n = true) : ∀ c ∈ n, isWs c = false := by
+  rcases rawName_cases n h with rfl | rfl <;> decide
 
 theorem rawName_facts (n : Str) (h : isRawText n = true) :
     lower n = n ∧ n ≠ [] ∧ '<' ∉ n ∧ (∀ c r, n = c :: r → isWs c = false) ∧
